@@ -168,6 +168,9 @@ impl Universe {
             ps.insert(format!("({p})"));
             ps.insert(format!("{p})"));
             ps.insert(format!(" {p}"));
+        }
+        // further respellings for the first and the last parameter string of the file
+        for p in params.iter().take(1).chain(params.iter().rev().take(1)) {
             ps.insert(format!("{p} "));
             ps.insert(format!("{p},"));
             ps.insert(format!(",{p}"));
